@@ -1433,6 +1433,19 @@ class C04(Prop):
                     ops += [f"0 proc - {big} m {sg}", f"1 proc - n m {sg}"]
             hs.append(History(ops, {"cfg": cfg.line, "kind": cfg.kind, "ty": cfg.ty, "feats": ["oversized-twin", "part"],
                                     "twin_pairs": pairs}))
+        # the max getters are promises for the whole life: go to the low end of the permitted range, read them, go to the high
+        # end (stepped or ramped), read next; failures of the fixed-input types on such schedules are the findings D3/D4
+        for i in range(max(8, self.n // 5)):
+            cfg = gen.gen_cfg(rng, kinds=gen.ASYNC, max_chunk=400, probe=True)
+            if cfg.maxrel <= 1:
+                continue
+            lo = hx((1 / cfg.maxrel) * (1 + 1e-9))
+            hi = hx(cfg.maxrel * (1 - 1e-9))
+            ops = [cfg.new(0)] + ["0 proc - n m i"] * rng.randint(0, 2)
+            ops += [f"0 rel {lo} {rng.choice([0, 1])}", "0 get"] + ["0 proc - n m i"] * rng.randint(0, 2)
+            ops += [f"0 rel {hi} {rng.choice([0, 1])}", "0 get"] + ["0 proc - n m i"] * rng.randint(1, 3)
+            ops += [f"0 rel {lo} {rng.choice([0, 1])}", "0 get"] + ["0 proc - n m i"] * rng.randint(1, 3)
+            hs.append(History(ops, {"cfg": cfg.line, "kind": cfg.kind, "ty": cfg.ty, "feats": ["range-sweep", "ratio-step"]}))
         return hs
 
     def nontrivial(self, h):
@@ -1441,6 +1454,7 @@ class C04(Prop):
     def oracle(self, h):
         out = []
         infos = {}
+        life = {}
         for k in h.meta.get("twin_pairs", []):
             ra, rb = h.real[k], h.real[k + 1]
             if "skip" in (ra, rb):
@@ -1458,7 +1472,17 @@ class C04(Prop):
                 break
             g = fr["g"]
             ms = (fm is not None and fm["g"] == g)
+            if name == "new" or name == "reset":
+                life[slot] = None
             if g is not None:
+                # buffers allocated at ANY earlier point of the instance's life (sized by the max getters of that moment) must
+                # still be sufficient now: next(now) <= max(any earlier time)
+                lm = life.get(slot)
+                if lm is not None and (g[0] > lm[0] or g[2] > lm[1]):
+                    out.append(viol("C04", h, k, info, "next-exceeds-an-earlier-max",
+                                    {"getters": g, "smallest_max_so_far": lm}, model_same=ms))
+                    break
+                life[slot] = (g[1], g[3]) if lm is None else (min(lm[0], g[1]), min(lm[1], g[3]))
                 if g[0] > g[1]:
                     out.append(viol("C04", h, k, info, "in-next-exceeds-max", {"getters": g}, model_same=ms))
                     break
@@ -2309,7 +2333,12 @@ class ToneProp(Prop):
                 fi, fo = kmul * ri // g, kmul * ro // g
                 ratio = ro / ri
                 chunk = fi if kind != "fftout" else fo
-                line = f"{ty} fftio {ri} {ro} {fi} 1" if kind == "fftio" else f"{ty} {kind} {ri} {ro} {chunk} 1 1"
+                sub = 1
+                if kind != "fftio" and (ri // g if kind == "fftin" else ro // g) > 1 and rng.random() < 0.5:
+                    # same block sizes, but a chunk that is NOT a whole number of blocks (two sub-chunks, one frame short): the
+                    # number of blocks per call varies and frames are carried over between calls
+                    sub, chunk = 2, 2 * chunk - 1
+                line = f"{ty} fftio {ri} {ro} {fi} 1" if kind == "fftio" else f"{ty} {kind} {ri} {ro} {chunk} {sub} 1"
                 lowmin = min(1.0, ratio)
                 cc = calc_cutoff(min(fi, fo), 3)
                 if not self.stop:
@@ -2322,22 +2351,25 @@ class ToneProp(Prop):
                     f_in = 0.5 * rng.uniform(min(0.999, lo + 0.01), 0.999)
                 n_in = 8 * fi + int(3000 / lowmin)
                 per = fi
-                ncalls = n_in // per + 2
+                ncalls = n_in // per + 4
                 L = fi
                 meta = {"fam": "fft", "ratio": ratio, "win": 3, "it": None, "osf": None, "fcut": cc, "sl": fi,
                         "f_in": f_in, "L": L, "cc": cc}
             if ncalls > 3000:
                 continue
-            ops = [f"0 new {line}"] + [f"0 proc - n m s{hx(f_in)} dump"] * ncalls
-            feats_extra = []
+            # half of the streams hand over buffers that are longer than needed (allowed by the API; the frames beyond
+            # input_frames_next() are the true next frames of the tone and are handed over again by the next call)
+            insz = "n" if rng.random() < 0.5 else rng.choice(["m", "m+%d" % rng.randint(1, 1500), "n+%d" % rng.randint(1, 1500)])
+            ops = [f"0 new {line}"] + [f"0 proc - {insz} m s{hx(f_in)} dump"] * ncalls
+            feats_extra = [] if insz == "n" else ["oversized-input"]
             if meta["fam"] == "sinc" and rng.random() < 0.5:
                 # "every way of chunking the stream": change the chunk size mid-stream a few times (and feed more calls,
                 # the chunks only get smaller)
-                ops += [f"0 proc - n m s{hx(f_in)} dump"] * min(ncalls, 200)
+                ops += [f"0 proc - {insz} m s{hx(f_in)} dump"] * min(ncalls, 200)
                 for _ in range(rng.randint(1, 4)):
                     pos = rng.randint(2, max(3, int(0.5 * len(ops))))
                     ops.insert(pos, f"0 chunk {rng.randint(max(1, chunk // 4), chunk)}")
-                feats_extra = ["chunk-schedule"]
+                feats_extra = feats_extra + ["chunk-schedule"]
             meta.update({"cfg": line, "kind": kind, "ty": ty, "feats": [WIN_NAMES[meta['win']]] + feats_extra})
             hs.append(History(ops, meta))
         return hs
